@@ -119,7 +119,8 @@ open Outcome
 /-- `isnan(x) | isinf(x) | x <= 0` -/
 def nnBad (x : XF) : Bool := x.isNan || x.isInf || x.le0
 
-/-- Python's builtin `min` (keeps the first minimal element; replaces on `item < current`). -/
+/-- The minimum of the valid entries (`jax.numpy.min`, formerly Python's builtin `min`; both return the same
+    value on finite positive numbers).  Written as the left fold "replace on `item < current`". -/
 def minXF (m : XF) : List XF → XF
   | [] => m
   | x :: xs => minXF (if x.lt m then x else m) xs
@@ -288,9 +289,16 @@ def squeezeJax1 : PyVal → PyVal
   | .arr .jax _ [x] => .arr .jax [] [x]
   | v => v
 
-/-- `validate_float(value, name, optional)` — converts with `float()` only: a NumPy / JAX integer scalar
-    comes back as a float here. -/
-def validateFloat (v : PyVal) (optional : Bool) : Outcome PyVal :=
+/-- `if isinf(value) and not allow_inf: raise ValueError` — the last test of `validate_float` (an int or
+    bool is never infinite; `None` only arrives here when it was optional). -/
+def infCheck (allowInf : Bool) (v : PyVal) : Outcome PyVal :=
+  match v with
+  | .float x => if x.isInf && !allowInf then valueError else ok v
+  | _ => ok v
+
+/-- `validate_float` up to and including its NaN test (the whole validator before the fix that made it
+    refuse ±inf) — converts with `float()` only: a NumPy / JAX integer scalar comes back as a float here. -/
+def validateFloatNan (v : PyVal) (optional : Bool) : Outcome PyVal :=
   match v with
   | .none => if optional then ok .none else valueError
   | _ =>
@@ -300,6 +308,12 @@ def validateFloat (v : PyVal) (optional : Bool) : Outcome PyVal :=
     else
       (floatCatch v).bind fun x => if x.isNan then valueError else ok (.float x)
 
+/-- `validate_float(value, name, optional, allow_inf=False)`: the NaN test is followed by
+    `if isinf(value) and not allow_inf: raise ValueError` (mu, mu_dim, mu_dens: a FINITE float is required;
+    only `derivatives.derivative` asks for `allow_inf=True`, for an evaluation point). -/
+def validateFloat (v : PyVal) (optional : Bool) (allowInf : Bool := false) : Outcome PyVal :=
+  (validateFloatNan v optional).bind (infCheck allowInf)
+
 /-- `validate_positive_int(value, name, optional)` — note `value < 0`: zero is accepted. -/
 def validatePositiveInt (v : PyVal) (optional : Bool) : Outcome PyVal :=
   match v, optional with
@@ -307,6 +321,15 @@ def validatePositiveInt (v : PyVal) (optional : Bool) : Outcome PyVal :=
   | .bool b, _ => ok (.bool b)
   | .int i, _ => if i < 0 then valueError else ok (.int i)
   | _, _ => valueError
+
+/-- `DimensionalityEstimator.__init__`: `self.k = validate_positive_int(k, "k")` followed by
+    `if self.k < 1: raise ValueError` (`False < 1`, `True` is 1). -/
+def validateK (v : PyVal) : Outcome PyVal :=
+  (validatePositiveInt v false).bind fun r =>
+    match r with
+    | .int i => if i < 1 then valueError else ok r
+    | .bool b => if b then ok r else valueError
+    | _ => ok r
 
 /-- `validate_bool(value, name, optional)` -/
 def validateBool (v : PyVal) (optional : Bool) : Outcome PyVal :=
@@ -378,20 +401,27 @@ def PyVal.isIterable : PyVal → Bool
 
 def arrVal (a : Arr) : PyVal := .arr .jax a.1 a.2
 
-/-- `validate_float_or_iterable_numerical(value, name, optional, positive)` -/
-def validateFloatOrIterable (v : PyVal) (optional positive : Bool) : Outcome PyVal :=
+/-- `validate_float_or_iterable_numerical(value, name, optional, positive, allow_inf=False)`: NaN is refused,
+    an infinite value is refused unless `allow_inf` (`d`: finite; `sigma`: `allow_inf=True`), then the sign
+    test of `positive`. -/
+def validateFloatOrIterable (v : PyVal) (optional positive : Bool) (allowInf : Bool := false) : Outcome PyVal :=
   match v, optional with
   | .none, true => ok .none
   | _, _ =>
     if v.isFloatOrInt then
-      (catchOverflow (pyFloat v)).bind fun x => if positive && x.lt0 then valueError else ok (.float x)
+      (catchOverflow (pyFloat v)).bind fun x =>
+        if x.isNan then valueError
+        else if x.isInf && !allowInf then valueError
+        else if positive && x.lt0 then valueError else ok (.float x)
     else
       match v with
       | .str _ _ => typeError
       | _ =>
         if v.isIterable then
           (catchOverflow (toArr v)).bind fun a =>
-            if positive && a.2.any XF.lt0 then valueError else ok (arrVal a)
+            if a.2.any XF.isNan then valueError
+            else if !allowInf && a.2.any XF.isInf then valueError
+            else if positive && a.2.any XF.lt0 then valueError else ok (arrVal a)
         else typeError
 
 /-- `validate_array(iterable, name, optional, ndim)`; `ndim = none` means no dimension check. -/
@@ -446,6 +476,50 @@ def predictorMeanInput (x normalize : PyVal) (nFeatures : Nat) (nObsMissing : Bo
 /-- The same for `covariance / mean_covariance / uncertainty` (no `normalize`). -/
 def predictorCovInput (x : PyVal) (nFeatures : Nat) : Outcome (List Nat) :=
   (validateArray x false Option.none).bind fun xv => featureCheck (arrShape xv) nFeatures
+
+/-! ### `validate_normalize_per_time_point` (the time-point normalisation target) -/
+
+/-- What `validate_normalize_per_time_point` distinguishes in a value: `None`, a Python bool, a NumPy / JAX
+    boolean scalar (`numpy.bool_`, 0-d array of dtype bool: `ndim == 0` and `dtype.kind == "b"`), a dict, a
+    str, a sized container that is no str (list, tuple, array with `ndim >= 1`; `len` = number of entries), and
+    every other scalar (Python int / float, NumPy scalar or 0-d array of a non-bool dtype, arbitrary object
+    without `__len__`). -/
+inductive NormVal where
+  | none
+  | bool (b : Bool)
+  | npbool (b : Bool)
+  | dict
+  | str
+  | sized (len : Nat)
+  | scalar
+  deriving DecidableEq, Repr
+
+/-- ```
+    if value is None or isinstance(value, (bool, dict)): return value
+    if getattr(value, "ndim", None) == 0:
+        if value.dtype.kind == "b": return bool(value)
+    elif hasattr(value, "__len__") and not isinstance(value, str): return value
+    raise TypeError
+    ``` -/
+def validateNormalize : NormVal → Outcome NormVal
+  | .none => ok .none
+  | .bool b => ok (.bool b)
+  | .dict => ok .dict
+  | .npbool b => ok (.bool b)
+  | .sized n => ok (.sized n)
+  | .str => typeError
+  | .scalar => typeError
+
+/-! ### the k-NN distance matrix of the `DimensionalityEstimator` -/
+
+/-- `DimensionalityEstimator._compute_distances` / `__init__`: the `(n, k)` matrix goes through
+    `validate_nn_distances` as a whole — the same function `validateNN` on the row-major flattening (every
+    test in it is element-wise or a reduction over all entries); rows are rebuilt with the old lengths. -/
+def sanitiseDistances (rows : List (List XF)) : Outcome (List XF) :=
+  (validateNN (some rows.flatten) false).bind fun r =>
+    match r with
+    | some ys => ok ys
+    | Option.none => internal
 
 /-! ### `GaussianProcessType.from_string` -/
 
